@@ -3,9 +3,12 @@
     fire-the-oldest-Deferred / stop / reset from the fresh loop.  Integer time (dyadic rationals scaled by 2^k);
     interval >= 0 (0 = as fast as possible, on a clock that runs a newly scheduled call in its next iteration).
 
-    Guard [run_ok]: start() is never called while a Deferred returned by f is still unfired.  Without the
-    guard the control statements are FALSE of the current code (theorems ..._refuted; known finding
-    "restart-while-deferred-pending"), so they are proved as ..._partial under exactly that guard. *)
+    Guards: [run_ok] — start() is never called while a Deferred returned by f is still unfired — and
+    [forall k, beh k <> FRestartRet] — f does not itself call stop() and then start().  Both say: start() is not
+    called before the previous run of the loop is over.  Without them the control statements are FALSE of the
+    current code (theorems ..._refuted; known findings "restart-while-deferred-pending" and
+    "restart-inside-call"), so they are proved as ..._partial under exactly these guards.
+    The model contains one repaired behaviour: start() resets _realLastTime (fixes/C10-start-resets-count.patch). *)
 From Coq Require Import List Arith ZArith Bool.
 From C10 Require Import Model Proofs.
 Import ListNotations.
@@ -22,7 +25,7 @@ Print Assumptions next_is_first_boundary_strictly_after.
 (** every call the loop ever schedules (ESched w st0 i t: scheduled at time w, when the previous invocation
     completed, resp. at start()/reset()) is for the first boundary of the current epoch strictly after w; with
     interval 0 it is for w itself (as soon as possible).  FULL statement: the same without [run_ok]. *)
-Theorem every_call_scheduled_at_first_boundary_after_completion_partial : forall beh wc ops,
+Theorem every_call_scheduled_at_first_boundary_after_completion_partial : forall beh, (forall k, beh k <> FRestartRet) -> forall wc ops,
   run_ok beh wc init ops ->
   forall w st0 i t, In (ESched w st0 i t) (log (run beh wc init ops)) ->
   (0 < i /\ t = st0 + ((w - st0) / i + 1) * i /\ w < t /\ t <= w + i) \/ (i = 0 /\ t = w).
@@ -51,14 +54,14 @@ Proof. exact advance_when_due. Qed.
 Print Assumptions advance_reaching_the_next_call_calls_once.
 
 (** f is called at most once per advance of the clock, also with interval 0 on a reactor-like clock *)
-Theorem at_most_one_call_per_advance_partial : forall beh wc ops a, run_ok beh wc init ops ->
+Theorem at_most_one_call_per_advance_partial : forall beh, (forall k, beh k <> FRestartRet) -> forall wc ops a, run_ok beh wc init ops ->
   let s := run beh wc init ops in (ncalls (step beh wc s (Advance a)) <= S (ncalls s))%nat.
 Proof. exact one_call_per_advance. Qed.
 Print Assumptions at_most_one_call_per_advance_partial.
 
 (** f is never called while a Deferred returned by an earlier call is unfired.
     FULL statement: forall beh wc ops k n ov, In (ECall k n ov) (log (run beh wc init ops)) -> ov = false. *)
-Theorem no_overlap_partial : forall beh wc ops, run_ok beh wc init ops ->
+Theorem no_overlap_partial : forall beh, (forall k, beh k <> FRestartRet) -> forall wc ops, run_ok beh wc init ops ->
   forall k n ov, In (ECall k n ov) (log (run beh wc init ops)) -> ov = false.
 Proof. exact reach_no_overlap. Qed.
 Print Assumptions no_overlap_partial.
@@ -70,7 +73,7 @@ Print Assumptions no_overlap_refuted.
 (** each start() Deferred fires at most once, and once the loop is over (stopped or failed, no Deferred of f
     outstanding) every start() Deferred has fired.
     FULL statement: the same without [run_ok]. *)
-Theorem start_deferred_fires_exactly_once_partial : forall beh wc ops, run_ok beh wc init ops ->
+Theorem start_deferred_fires_exactly_once_partial : forall beh, (forall k, beh k <> FRestartRet) -> forall wc ops, run_ok beh wc init ops ->
   let s := run beh wc init ops in
   NoDup (done_gens (log s)) /\ ~ In EDoubleFire (log s)
   /\ (running s = false -> waiting s = [] -> forall g, (g < dgen s)%nat -> In g (done_gens (log s))).
@@ -85,7 +88,7 @@ Print Assumptions start_deferred_fires_exactly_once_refuted.
 
 (** after stop() or a failure (loop not running, nothing outstanding) nothing is scheduled and no operation
     other than a new start() calls f *)
-Theorem no_call_after_stop_or_failure_partial : forall beh wc ops, run_ok beh wc init ops ->
+Theorem no_call_after_stop_or_failure_partial : forall beh, (forall k, beh k <> FRestartRet) -> forall wc ops, run_ok beh wc init ops ->
   let s := run beh wc init ops in
   running s = false -> waiting s = [] ->
   pend s = [] /\ forall o, (forall i b, o <> Start i b) -> ncalls (step beh wc s o) = ncalls s.
@@ -97,30 +100,42 @@ Print Assumptions no_call_after_stop_or_failure_partial.
     recorded when the epoch began (EEpoch: the index, relative to the new starttime, of the last counted call
     before it, i.e. minus the whole intervals between that call and the new starttime; -1 / 0 for a fresh
     now=True / now=False loop).  Clock monotone, interval > 0. *)
-Theorem counts_sum_per_epoch_partial : forall beh wc ops,
+Theorem counts_sum_per_epoch_partial : forall beh, (forall k, beh k <> FRestartRet) -> forall wc ops,
   run_ok beh wc init ops -> Forall nonneg_adv ops ->
   let s := run beh wc init ops in
   started s = true -> 0 < interval s -> esum (log s) = lastidx s - ebase (log s).
 Proof. exact reach_counts_epoch. Qed.
 Print Assumptions counts_sum_per_epoch_partial.
 
-(** as long as start() was called at most once (reset() allowed), countCallable is never skipped and every
-    count is >= 1; a second start(now=True) sooner than one interval after the last counted call does skip it *)
-Theorem counts_positive_and_never_skipped_partial : forall beh wc ops,
-  run_ok beh wc init ops -> Forall nonneg_adv ops ->
-  let s := run beh wc init ops in (dgen s <= 1)%nat -> Forall count_ok (log s).
+(** countCallable is never skipped and every count is >= 1, across stop()/start() and reset() (repaired
+    start(): before the fix the immediate call of a second start(now=True) made less than one interval after
+    the last counted call was silently skipped, and a later restart got an inflated first count) *)
+Theorem counts_positive_and_never_skipped_partial : forall beh, (forall k, beh k <> FRestartRet) -> forall wc ops,
+  run_ok beh wc init ops -> Forall nonneg_adv ops -> Forall count_ok (log (run beh wc init ops)).
 Proof. exact reach_counts_ok. Qed.
 Print Assumptions counts_positive_and_never_skipped_partial.
 
-(** the simple form (one start(), no reset()): the counts sum to the number of boundaries start + j*interval
-    up to the last call (j >= 0 when started with now=True, else j >= 1) *)
-Theorem counts_sum_to_boundaries_elapsed_partial : forall beh wc ops,
+(** the simple form (no reset() since the last start()): the counts passed since that start() sum to the number
+    of boundaries start + j*interval up to the last call (j >= 0 when started with now=True, else j >= 1) *)
+Theorem counts_sum_to_boundaries_elapsed_partial : forall beh, (forall k, beh k <> FRestartRet) -> forall wc ops,
   run_ok beh wc init ops -> Forall nonneg_adv ops ->
   let s := run beh wc init ops in
-  wasreset s = false -> 0 < interval s ->
-  csum (log s) = match realLast s with
+  started s = true -> wasreset s = false -> 0 < interval s ->
+  esum (log s) = match realLast s with
                  | Some l => (l - start s) / interval s + (if runAtStart s then 1 else 0)
                  | None => 0
                  end.
 Proof. exact reach_counts. Qed.
 Print Assumptions counts_sum_to_boundaries_elapsed_partial.
+
+(** f calling stop() and start(now=False) itself: two calls of the loop pending, the first start() Deferred
+    lost, f called after a later stop() *)
+Theorem restart_inside_call_refuted :
+  let s1 := run inside_beh false init [Start 2 true; Advance 2] in
+  let s2 := run inside_beh false init [Start 2 true; Advance 2; Advance 2; Stop] in
+  let s3 := step inside_beh false s2 (Advance 2) in
+  map snd (pend s1) = [4; 4]
+  /\ (running s2 = false /\ waiting s2 = [] /\ pend s2 <> [] /\ ~ In 0%nat (done_gens (log s2)) /\ dcur s2 = None)
+  /\ ncalls s3 = S (ncalls s2).
+Proof. exact restart_inside_refuted. Qed.
+Print Assumptions restart_inside_call_refuted.
